@@ -193,7 +193,19 @@ fn clone_cell(rep: &Report, idx: usize, cell: &Cell, seed: u64) -> Option<String
         let mut verify: Option<String> = None;
         match cell.arch {
             ArchKind::Valid => {}
-            ArchKind::BadMagic => abytes[rng.usize_below(6)] ^= 0x20,
+            ArchKind::BadMagic => {
+                if rng.chance(1, 2) {
+                    abytes[rng.usize_below(6)] ^= 0x20;
+                } else {
+                    // only the padding byte of the magic differs ("BITA1\x01", "2BITA1"), and the
+                    // header checksum is recomputed over it: still not an archive
+                    let legacy = abytes[0] == 0;
+                    let k = if legacy { 0 } else { 5 };
+                    abytes[k] = *rng.pick(&[1u8, b'2', 0xff, b' ']);
+                    let sum = crate::util::b2(&abytes[..hl - 64]);
+                    abytes[hl - 64..hl].copy_from_slice(&sum);
+                }
+            }
             ArchKind::BadChecksum => {
                 let k = hl - 64 + rng.usize_below(64);
                 abytes[k] ^= 1 << rng.below(8);
